@@ -636,6 +636,7 @@ type simNode struct {
 	importF     map[int]int // slot -> source node (this node is the target)
 	nodesServed int
 	gone        bool // not part of the cluster any more (not listed by CLUSTER NODES)
+	heldFd      int  // 0, or 1 + the descriptor of the socket that keeps a stopped node's port taken
 }
 
 type simCluster struct {
@@ -743,14 +744,54 @@ func (nd *simNode) stop() {
 	for c := range nd.conns {
 		cs = append(cs, c)
 	}
+	closing := nd.cl.closed
 	nd.cl.mu.Unlock()
 	ln.Close()
+	if !closing {
+		nd.holdPort()
+	}
 	for _, c := range cs {
 		c.Close()
 	}
 }
 
-func (nd *simNode) start() { nd.listen(nd.addr) }
+// holdPort keeps the address of a stopped node out of everybody's reach (a socket bound to it that does not listen:
+// connects are refused), so that no other process on the machine - another harness, say - gets the port assigned and
+// answers the proxy's connection attempts in the dead node's place.
+func (nd *simNode) holdPort() {
+	host, portStr, err := net.SplitHostPort(nd.addr)
+	if err != nil || host != "127.0.0.1" {
+		return
+	}
+	port, _ := strconv.Atoi(portStr)
+	fd, err := syscall.Socket(syscall.AF_INET, syscall.SOCK_STREAM, 0)
+	if err != nil {
+		return
+	}
+	syscall.SetsockoptInt(fd, syscall.SOL_SOCKET, syscall.SO_REUSEADDR, 1)
+	if err := syscall.Bind(fd, &syscall.SockaddrInet4{Port: port, Addr: [4]byte{127, 0, 0, 1}}); err != nil {
+		syscall.Close(fd)
+		return
+	}
+	nd.cl.mu.Lock()
+	nd.heldFd = fd + 1
+	nd.cl.mu.Unlock()
+}
+
+func (nd *simNode) releasePort() {
+	nd.cl.mu.Lock()
+	fd := nd.heldFd
+	nd.heldFd = 0
+	nd.cl.mu.Unlock()
+	if fd > 0 {
+		syscall.Close(fd - 1)
+	}
+}
+
+func (nd *simNode) start() {
+	nd.releasePort()
+	nd.listen(nd.addr)
+}
 
 // killConns resets the established connections only (the node keeps listening).
 func (nd *simNode) killConns() {
@@ -770,7 +811,10 @@ func (cl *simCluster) close() {
 	cl.closed = true
 	cl.mu.Unlock()
 	for _, nd := range cl.nodes {
-		nd.stop()
+		nd.releasePort()
+		if nd.up {
+			nd.stop()
+		}
 	}
 	cl.wg.Wait()
 }
